@@ -390,6 +390,7 @@ def run(world, inc, lab_dir, disk_dir, t0):
                         record=world.get("record_lines"), state=_State(ctx))
         ctx.tracer = tracer
         tracer.on_signal = lambda: setattr(disk, "signal_base", disk.n)
+        disk.deliver_signal = tracer.deliver_now
         if world.get("opcode_funcs"):
             tracer.opcode_funcs = set(world["opcode_funcs"])
             tracer.record_ops = bool((world.get("record_lines") or {}).get("compact"))
